@@ -39,7 +39,7 @@ func c14OptionalMembers(c *core.Ctx) {
 		}
 		rel := core.RelPkg(fd.Obj.Pkg().Path())
 		switch {
-		case rel == "" && fd.Obj.Exported():
+		case (rel == "" || rel == "internal/cli" || rel == "cmd/gobl") && (fd.Obj.Exported() || fd.Obj.Name() == "main"):
 			roots = append(roots, fd.Obj)
 		case cg.valueRefs[fd.Obj]:
 			roots = append(roots, fd.Obj)
@@ -75,7 +75,7 @@ func c14OptionalMembers(c *core.Ctx) {
 			continue
 		}
 		rel := core.RelPkg(fd.Obj.Pkg().Path())
-		if strings.HasPrefix(rel, "internal/") || strings.HasPrefix(rel, "cmd/") || strings.HasPrefix(rel, "examples") {
+		if strings.HasPrefix(rel, "examples") || strings.HasSuffix(p.RelFile(fd.Decl.Pos()), "mage.go") {
 			continue
 		}
 		fds = append(fds, fd)
@@ -174,6 +174,9 @@ type bodyCtx struct {
 	lit    *ast.FuncLit
 	// requiredOf: the members a type's own validator requires unconditionally
 	requiredOf func(*types.Named) map[*types.Var]bool
+	// lenPredicate: the call is `x.P()` with P a module method whose body is
+	// `return len(recv.F) OP const`: the member spelled at the call site, OP and const
+	lenPredicate func(*ast.CallExpr) (string, token.Token, int64, bool)
 }
 
 func (m *memberCheck) ctxOf(fd *core.FuncDecl, body *ast.BlockStmt, parent *bodyCtx, lit *ast.FuncLit) *bodyCtx {
@@ -191,6 +194,46 @@ func (m *memberCheck) ctxOf(fd *core.FuncDecl, body *ast.BlockStmt, parent *body
 			m.required[n] = core.RequiredFields(m.p, n)
 		}
 		return m.required[n]
+	}
+	b.lenPredicate = func(call *ast.CallExpr) (string, token.Token, int64, bool) {
+		fn := core.Callee(info, call)
+		re := core.RecvExpr(call)
+		if fn == nil || re == nil || !core.InModule(fn.Pkg()) {
+			return "", 0, 0, false
+		}
+		pfd := m.p.DeclOf(fn)
+		if pfd == nil || pfd.Decl.Body == nil || len(pfd.Decl.Body.List) != 1 {
+			return "", 0, 0, false
+		}
+		rs, ok := pfd.Decl.Body.List[0].(*ast.ReturnStmt)
+		if !ok || len(rs.Results) != 1 {
+			return "", 0, 0, false
+		}
+		be, ok := ast.Unparen(rs.Results[0]).(*ast.BinaryExpr)
+		if !ok {
+			return "", 0, 0, false
+		}
+		pinfo := pfd.Pkg.TypesInfo
+		lc, ok := ast.Unparen(be.X).(*ast.CallExpr)
+		if !ok || len(lc.Args) != 1 {
+			return "", 0, 0, false
+		}
+		if id, ok := lc.Fun.(*ast.Ident); !ok || id.Name != "len" {
+			return "", 0, 0, false
+		}
+		se, ok := ast.Unparen(lc.Args[0]).(*ast.SelectorExpr)
+		if !ok || core.VarOf(pinfo, se.X) != recvVar(pfd) || recvVar(pfd) == nil {
+			return "", 0, 0, false
+		}
+		tv, ok := pinfo.Types[be.Y]
+		if !ok || tv.Value == nil {
+			return "", 0, 0, false
+		}
+		cst, ok := constIntOf(tv)
+		if !ok {
+			return "", 0, 0, false
+		}
+		return exprKey(re) + "." + se.Sel.Name, be.Op, cst, true
 	}
 	m.ctxs[body] = b
 	return b
@@ -997,6 +1040,12 @@ func (b *bodyCtx) minLen(at ast.Node, want string, stack []ast.Node) int64 {
 			g := core.GuardOf(info, leaf, b.errs)
 			if g.Kind == "len" && g.X != nil && exprKey(g.X) == want {
 				fact(g.Op, g.Const, val)
+			}
+			// a predicate method that is a length test of a member: env.Signed() { return len(e.Signatures) > 0 }
+			if g.Kind == "bool" && g.Call != nil && b.lenPredicate != nil {
+				if member, op, cst, ok := b.lenPredicate(g.Call); ok && member == want {
+					fact(op, cst, val)
+				}
 			}
 		}
 		// built with enough elements on every path
